@@ -3,8 +3,8 @@
 cd /verif
 export GOFLAGS=-mod=mod GOPROXY=off GOSUMDB=off GOTOOLCHAIN=local GOWORK=off
 tier=${1:-thorough}
-for p in $(./bin/rcverif list); do
-  out=$(./bin/rcverif check -property $p -tier $tier 2>&1); rc=$?
+for p in $(${RCV:-./bin/rcverif} list); do
+  out=$(${RCV:-./bin/rcverif} check -property $p -tier $tier 2>&1); rc=$?
   echo "$p rc=$rc $(echo "$out" | grep '^property=' | tail -1) | $(echo "$out" | grep '^selftest:' | tail -1)"
   echo "$out" | grep -E "selftest FAILED|VIOLATION|VIOLATED|UNDECIDED" | head -10
 done
